@@ -1080,6 +1080,14 @@ def run_program(env, inp, out, tag="gen", chooser=None, depth=0):
                 ctx.hit("selection-grid-identified:" + sdim)
             if grid_sel:
                 clauses.append("grid_is_the_selection")
+        if (m == "index" and desc["dim"] in GRID_DIMS and not grid_aware and sel_pos is not None and cur_grid is not None
+                and isinstance(r, ux.UxDataArray) and getattr(r, "uxgrid", None) is cur_grid and desc["dim"] in r.dims
+                and len(sel_pos) == int(getattr(cur_grid, desc["dim"])) and sel_pos != list(range(len(sel_pos)))):
+            # a REORDERING (`[::-1]`, a permutation) keeps the length, so the counts still match — but the data are reordered
+            # while the grid is the same object: element i of the array is no longer element i of the grid
+            grid_sel = (f"the data are reordered to source elements {sel_pos[:12]} but the result keeps the same, un-reordered "
+                        "grid object")
+            clauses.append("grid_is_the_selection")
         if m == "copy" and desc["how"] in DEEP and post["grid"] >= 0 and cur_grid is not None:
             # "an equal … grid": the library's own Grid.__eq__ on (copy's grid, original grid)
             try:
@@ -1156,6 +1164,11 @@ def run_program(env, inp, out, tag="gen", chooser=None, depth=0):
             elif c0 == "shape_as_xarray":
                 sig = f"C10/op={name}/shape-differs-from-xarray"
                 what = f"{name}: result dims {post['dims']} but plain xarray gives {post_dims}"
+            elif c0 == "grid_is_the_selection" and m == "index" and not grid_aware:
+                via_ = "isel" if desc["how"] in ("getitem", "getitem_dict", "isel_indexers", "isel_dict", "isel_kw") else "temp-dataset"
+                how_ = f"/via={via_}" if desc["dim"] == "n_face" else ""
+                sig = f"C10/op=index-grid-dim/dim={desc['dim']}{how_}/path={path}/stale-grid"
+                what = f"indexing {desc['dim']} through `{desc['how']}` ({desc.get('form') or 'slice/list'}): {grid_sel}"
             elif c0 == "grid_is_the_selection":
                 sig = f"C10/op={name}/dim={desc['dim']}/form={desc.get('form') or 'list'}/grid-is-not-the-selection"
                 what = f"{name} ({desc.get('how') or 'isel keyword'}, indexer form {desc.get('form') or 'list'}): {grid_sel}"
@@ -1851,6 +1864,16 @@ def indexer_forms(env, rng, base, wc):
                          (dict(a=None, b=None, s=-1), {}), (dict(a=1, b=n - 1, s=2), {}), (dict(a=-3, b=None, s=None), {}),
                          (dict(a=n - 1, b=0, s=-2), {}), ([0], dict(form="empty")), ([0], dict(form="empty_slice")),
                          (rng.randrange(n), {})]
+                # every combination of None / int for start, stop and step ∈ {None, 1, 2, 3, -1, -2} (bounds None with a
+                # step other than 1 — `::2`, `::3`, `::-1`, `::-2` — are selections too)
+                for a_ in (None, 1, -2):
+                    for b_ in (None, n - 1, -1):
+                        for s_ in (None, 1, 2, 3, -1, -2):
+                            if a_ is None and b_ is None and s_ in (None, 1):
+                                continue                      # the full slice: not a selection
+                            if gid == 1 and lead and s_ in (1, 3):
+                                continue
+                            sels.append((dict(a=a_, b=b_, s=s_), {}))
                 if not lead and data and min(data) < max(data):
                     sels.append(([0], dict(form="cmp", c=float(sorted(set(data))[len(set(data)) // 2 - 1]))))
                 for idx, ex in sels:
